@@ -131,7 +131,8 @@ CHECKS = {
    category="model_checking",
    text="TLC explores the coordinator/worker state machine of check_for_loopcarried_dep (LCDSearchSM: StartAll, WStep, Tick, Check, Sleep, Kill, JoinAll, Copy, PostProcess) exhaustively - every interleaving, NW in {1,2,3,5,16,K+1}, poll loop and no timeout; "
         "terminal result = sequential result, partition exact. A transition cover of the dumped state graph plus simulated behaviours for larger K/NW is replayed on the REAL coordinator and worker code under a deterministic virtual-process scheduler (Process/Manager/cpu_count/time/os "
-        "substituted from outside) with the state compared after every action. Real fork runs (kernels at and above the 50-line threshold, worker counts {1,2,3,5,16,>K}, seeded delays) and CLI repeats are validated by Trace_LCDSearch against the sequential search.",
+        "substituted from outside) with the state compared after every action. Real fork runs (kernels at and above the 50-line threshold, worker counts {1,2,3,5,16,>K}, seeded delays) and CLI repeats are validated by Trace_LCDSearch against the sequential search. "
+        "Partition sweep: MC_Partition proves Slice covers every root exactly once for all K <= 160 (300) and NW <= 72 (130); the real coordinator runs with virtual workers on 170 (2600) (length 50-140, 1-70 workers) pairs over kernels whose one-instruction cycles sit at the slice boundaries, validated by Trace_Partition.",
    design_ref="5/C16, 10.9", technique="TLA+ state machine + TLC exhaustive/simulation + transition-cover replay under virtual processes + trace validation of real multi-process runs",
    note="Trusts the fakes in harness/vproc.py (SIGKILL semantics, atomic list request), the log projection in lcd_common.py and the abstract-kernel renderer; exhaustive for K <= 6, sampled above; quick replays a seeded sample of the cover paths."),
  "C19": dict(
